@@ -1866,6 +1866,8 @@ Box<ITV>::wrap_assign(const Variables_Set& vars,
       break;
     }
   }
+  // The box may have become empty.
+  reset_empty_up_to_date();
   PPL_ASSERT(x.OK());
 #endif
 }
